@@ -208,6 +208,9 @@ func registerExterns(w *World) {
 		c.k(st, Val{K: KTuple, Fs: []Val{term(v, tInt), term(e, types.Universe.Lookup("error").Type())}})
 	})
 	w.ext("strconv.Itoa", "Itoa: opaque string", externPure)
+	w.ext("strings.Index", "strings.Index(s, sub) == str.indexof(s, sub, 0)", func(ex *Exec, st *State, c *callCtx) {
+		c.k(st, term("(str.indexof "+c.args[0].T+" "+c.args[1].T+" 0)", tInt))
+	})
 	parseInt := func(unsigned bool) externHandler {
 		return func(ex *Exec, st *State, c *callCtx) {
 			s := c.args[0].T
@@ -320,6 +323,19 @@ func registerExterns(w *World) {
 		st.setRegion("G!tickerof", arr("Int", "Int"), store(gc, ch, r))
 		c.k(st, term(r, tt))
 	})
+	w.ext("time.NewTimer", "NewTimer(d): fresh one-shot timer: fires once after d, ghost period(t) = 0 (it does not repeat)", func(ex *Exec, st *State, c *callCtx) {
+		r := st.allocRef("timer")
+		g := st.region("G!tickperiod", arr("Int", "Int"))
+		st.setRegion("G!tickperiod", arr("Int", "Int"), store(g, r, "0"))
+		ch := st.allocRef("tickchan")
+		tt := c.fn.Signature.Results().At(0).Type()
+		et := tt.Underlying().(*types.Pointer).Elem()
+		st.writeLeaf(et, "C", "Int", r, ch)
+		gc := st.region("G!tickerof", arr("Int", "Int"))
+		st.setRegion("G!tickerof", arr("Int", "Int"), store(gc, ch, r))
+		c.k(st, term(r, tt))
+	})
+	w.ext("(*time.Timer).Stop", "Timer.Stop: no modelled effect", func(ex *Exec, st *State, c *callCtx) { c.k(st, term(ex.fresh("stopped", "Bool"), tBool)) })
 	w.ext("(*time.Ticker).Stop", "Stop: no modelled effect", func(ex *Exec, st *State, c *callCtx) { c.k(st, Val{K: KUnit}) })
 
 	// ---- uuid / json
@@ -416,6 +432,46 @@ func registerExterns(w *World) {
 	// ---- sync
 	w.ext("(*sync.Mutex).Lock", "Mutex.Lock: mutual exclusion; acquiring a mutex already held by the caller is a self-deadlock", externLock)
 	w.ext("(*sync.Mutex).Unlock", "Mutex.Unlock: releases; unlocking a mutex not held is an error", externUnlock)
+	w.ext("(*sync.RWMutex).Lock", "RWMutex.Lock: exclusive lock, as Mutex.Lock", externLock)
+	w.ext("(*sync.RWMutex).Unlock", "RWMutex.Unlock: as Mutex.Unlock", externUnlock)
+	w.ext("(*sync.RWMutex).RLock", "RWMutex.RLock: shared lock — other holders of the read lock run concurrently; it gives the lock's protection for reads only", externRLock)
+	w.ext("(*sync.RWMutex).RUnlock", "RWMutex.RUnlock: releases the shared lock", externUnlock)
+	w.ext("(*sync.Mutex).TryLock", "Mutex.TryLock: either acquires the mutex and returns true, or returns false without acquiring it", func(ex *Exec, st *State, c *callCtx) {
+		miss := st.clone()
+		ex.paths++
+		inner := *c
+		inner.k = func(s *State, _ Val) { c.k(s, term("true", tBool)) }
+		externLock(ex, st, &inner)
+		c.k(miss, term("false", tBool))
+	})
+	// typed atomics (sync/atomic.Bool, Int32, Int64, Uint32, Uint64): the value is one integer cell of the enclosing object
+	for _, tn := range []string{"Int32", "Int64", "Uint32", "Uint64"} {
+		tn := tn
+		w.ext("(*sync/atomic."+tn+").Load", "atomic."+tn+".Load: the cell's value", func(ex *Exec, st *State, c *callCtx) {
+			v := ex.loadPtr(st, c.args[0], nil)
+			c.k(st, term(v.T, c.fn.Signature.Results().At(0).Type()))
+		})
+		w.ext("(*sync/atomic."+tn+").Store", "atomic."+tn+".Store: sets the cell", func(ex *Exec, st *State, c *callCtx) {
+			cur := ex.loadPtr(st, c.args[0], nil)
+			ex.storePtr(st, c.args[0], term(c.args[1].T, cur.Typ), nil)
+			c.k(st, Val{K: KUnit})
+		})
+		w.ext("(*sync/atomic."+tn+").Add", "atomic."+tn+".Add: adds and returns the new value (mathematical integers; range of the type not checked)", func(ex *Exec, st *State, c *callCtx) {
+			cur := ex.loadPtr(st, c.args[0], nil)
+			nv := "(+ " + cur.T + " " + c.args[1].T + ")"
+			ex.storePtr(st, c.args[0], term(nv, cur.Typ), nil)
+			c.k(st, term(nv, c.fn.Signature.Results().At(0).Type()))
+		})
+	}
+	w.ext("(*sync/atomic.Bool).Load", "atomic.Bool.Load: the flag (cell != 0)", func(ex *Exec, st *State, c *callCtx) {
+		v := ex.loadPtr(st, c.args[0], nil)
+		c.k(st, term(not(eq(v.T, "0")), tBool))
+	})
+	w.ext("(*sync/atomic.Bool).Store", "atomic.Bool.Store: sets the flag", func(ex *Exec, st *State, c *callCtx) {
+		cur := ex.loadPtr(st, c.args[0], nil)
+		ex.storePtr(st, c.args[0], term(ite(c.args[1].T, "1", "0"), cur.Typ), nil)
+		c.k(st, Val{K: KUnit})
+	})
 	w.ext("sync/atomic.StoreInt64", "atomic.StoreInt64(p,v): *p = v", func(ex *Exec, st *State, c *callCtx) {
 		ex.storePtr(st, c.args[0], c.args[1], nil)
 		c.k(st, Val{K: KUnit})
